@@ -11,18 +11,25 @@
 (*             a loaded file are put on a stack in the order they are      *)
 (*             written and the file on top is loaded next, each file once  *)
 (*             (so the LAST import of a file is loaded right after it).    *)
-(* Tables      what every file can name.  Pass 1: every file's own         *)
-(*             globals.  Pass 2: the files in module order, the import     *)
-(*             statements of a file in text order: `use p [as a]` adds a   *)
-(*             namespace, `from p use n [as a]` adds whatever p's file can *)
-(*             name as n AT THAT MOMENT - its own global n always, a name   *)
-(*             it has itself imported only if it was processed earlier     *)
-(*             (faulty_from_circular.sy: "Cannot find" otherwise).  A      *)
-(*             configuration in which some `from` finds nothing is         *)
-(*             rejected.  After pass 2 a reference a.b.x is resolved from  *)
-(*             left to right through the namespaces; x may be any name its *)
-(*             file can name (own or imported: `shapes.area` works however *)
-(*             the files were ordered).                                    *)
+(* Tables      what every file can name.  Every file's own globals; `use   *)
+(*             p [as a]` adds a namespace; `from p use n [as a]` adds      *)
+(*             whatever p's file can name as n - its own global n or a     *)
+(*             name it has itself imported (least fixpoint: the order in   *)
+(*             which files and statements are looked at has no meaning,    *)
+(*             "You don't have to consider include-ordering").  A `from`   *)
+(*             that finds nothing makes the program ill-formed (rejected). *)
+(*             A reference a.b.x is resolved from left to right through    *)
+(*             the namespaces; x may be any name its file can name.        *)
+(* Free verdict A configuration in which some `from` takes a name that the *)
+(*             other file has only imported itself ("handed on via from",  *)
+(*             d.free) may be accepted or rejected: the guide's "central   *)
+(*             exporting-file" suggests it works, /repo's                  *)
+(*             tests/import/faulty_from_circular.sy pins a rejection.      *)
+(*             If it is accepted it must behave as the model says.  What   *)
+(*             is NOT free: the verdict must be the same for every order   *)
+(*             of the main file's import statements (OrderIndependent,     *)
+(*             judged per group of configurations that differ only in that *)
+(*             order), and every other configuration must be accepted.     *)
 (* Entry point the `start` of the file being run.  Every other file may    *)
 (*             define a global `start` of its own: an ordinary function    *)
 (*             (tests/import/subdir/exports.sy), also when the main file's *)
@@ -43,8 +50,10 @@
 (* w = variant 0..63: aliases at the first and at the consumer's hop,      *)
 (* printing initialisers, which files define their own `start`, extra      *)
 (* back / side imports (cycles, files with several imports), and derived   *)
-(* from n + w: path texts, statement order of the other files, `from ..    *)
-(* use start as go` instead of a namespace, import lines first or last.    *)
+(* from (n without its order digit, w): path texts, statement order of the *)
+(* other files, `from .. use start as go` instead of a namespace, import   *)
+(* lines first or last.  Configurations with the same (n % NBaseL, w) are  *)
+(* the same program up to the order of the main file's import statements.  *)
 (***************************************************************************)
 EXTENDS SyltModules
 
@@ -93,7 +102,11 @@ ProcStmts(T, f, ss, q) == IF q > Len(ss) THEN T ELSE ProcStmts(ProcStmt(T, f, ss
 RECURSIVE ProcFiles(_, _, _, _)
 ProcFiles(T, load, stm, q) == IF q > Len(load) THEN T ELSE ProcFiles(ProcStmts(T, load[q], stm[load[q]], 1), load, stm, q + 1)
 
-Tables(load, stm, gl) == ProcFiles([tab |-> [f \in Range(Tree) |-> OwnBinds(f, gl)], fails |-> {}], load, stm, 1)
+\* least fixpoint: pass over all files until nothing new can be named; the failures are those of the last pass
+RECURSIVE FixTables(_, _, _)
+FixTables(T, load, stm) == LET T2 == ProcFiles([tab |-> T.tab, fails |-> {}], load, stm, 1) IN
+                           IF T2.tab = T.tab THEN T2 ELSE FixTables(T2, load, stm)
+Tables(load, stm, gl) == FixTables([tab |-> [f \in Range(Tree) |-> OwnBinds(f, gl)], fails |-> {}], load, stm)
 
 RECURSIVE WalkT(_, _, _, _)
 WalkT(tab, f, nss, q) ==
@@ -112,7 +125,8 @@ Slots == <<"boot", "run", "start", "area", "label">>
 SlotOf(x) == CHOOSE q \in 1..Len(Slots) : Slots[q] = x
 BinderOf(f, x) == FileIdxOf(f) * 10 + SlotOf(x)
 
-NPrimL == 3 * 2 * 2 * 3 * 8 * 24
+NBaseL == 3 * 2 * 2 * 3 * 8          \* everything but the order of the main file's import statements
+NPrimL == NBaseL * 24
 NVariantsL == 64
 \* orders of the main file's k import statements: every permutation up to k = 4, rotations x reversal beyond
 NOrd(k) == CASE k = 1 -> 1 [] k = 2 -> 2 [] k = 3 -> 6 [] k = 4 -> 24 [] OTHER -> 2 * k
@@ -150,7 +164,8 @@ DeriveL(n, w) ==
       lastx   == chain[len]
       present == SelectSeq(Tree, LAMBDA f : f \in {LM, LR, LG} \cup Range(chain))
       isIn(f) == f \in Range(present)
-      h       == (n * 37 + w * 101 + (n \div 16) * 13) % 1009     \* mixes the address: the derived choices vary independently
+      nb      == n % NBaseL                \* the derived choices do not depend on the order digit
+      h       == (nb * 37 + w * 101 + (nb \div 16) * 13) % 1009
       a1      == Bit(w, 0) = 1            \* the first `from` of the chain renames label to name
       a2      == Bit(w, 1) = 1            \* the consumer renames area to ar / takes the namespace under an alias
       boots   == Bit(w, 2) = 1
@@ -216,7 +231,9 @@ DeriveL(n, w) ==
                      \cup (IF f = LO THEN {"area", "label"} ELSE {})
       gl == TLCEval([f \in Range(Tree) |-> own(f)])
       T == Tables(load, stm, gl)
-      accepted == T.fails = {}
+      \* every `from` that hands on a name its file has only imported: importer, exporter
+      hops == (IF len >= 3 THEN {<<LK, LE>>} ELSE {}) \cup (IF last = "from" /\ len >= 2 THEN {<<cons, lastx>>} ELSE {})
+      free == hops # {}
       \* ---- what the functions of a file call: along its imports of files further down (never back: no recursion)
       callRefs(f) ==
           LET ss == stm[f]
@@ -251,17 +268,12 @@ DeriveL(n, w) ==
                      tops |-> topsOf(f),
                      refs |-> refsOf(f),
                      imports_last |-> (h + FileIdxOf(f)) % 2 = 1]
-      \* every `from` that hands on a name its file has only imported: importer, exporter
-      hops == (IF len >= 3 THEN {<<LK, LE>>} ELSE {}) \cup (IF last = "from" /\ len >= 2 THEN {<<cons, lastx>>} ELSE {})
   IN [n |-> n, w |-> w, len |-> len, cons |-> cons, last |-> last, em |-> em, ord |-> ord, nmain |-> k,
       present |-> present, stm |-> stm, imp |-> imp, load |-> load, gl |-> gl, tab |-> T.tab, fails |-> T.fails,
-      accepted |-> accepted,
+      free |-> free,
       files |-> [q \in DOMAIN present |-> fileRec(present[q])],
-      expect |-> IF accepted
-                 THEN [class |-> "ok", status |-> S2.status, prints |-> [q \in 1..Len(S2.out) |-> PrintText(S2.out[q].v)]]
-                 ELSE [class |-> "err", status |-> "none", prints |-> <<>>],
+      expect |-> [class |-> "ok", status |-> S2.status, prints |-> [q \in 1..Len(S2.out) |-> PrintText(S2.out[q].v)]],
       hops |-> hops,
-      hopsInOrder |-> \A hp \in hops : PosIn(load, hp[2]) < PosIn(load, hp[1]),
       boots |-> boots, smode |-> smode, starts |-> startFiles, extras |-> extras, gofrom |-> gofrom, rev |-> rev,
       a1 |-> a1, a2 |-> a2, layout |-> layout,
       \* the main file's start depends (through calls) on a `start` of another file
@@ -273,8 +285,9 @@ DeriveL(n, w) ==
       multi |-> Cardinality({f \in Range(present) \ {LM} : Len(stm[f]) >= 2})]
 
 ---------------------------------------------------------------------------
-(* Which configurations a run explores: nv variants per applicable primary, spread over 0..63, offset by n and seed *)
-VariantsForL(nv, seed, n) == {(n * 7 + seed + q * (NVariantsL \div nv)) % NVariantsL : q \in 0..(nv - 1)}
+(* Which configurations a run explores: nv variants per applicable primary, spread over 0..63, offset by n (without
+   its order digit: all orders of a program are explored together) and seed *)
+VariantsForL(nv, seed, n) == {((n % NBaseL) * 7 + seed + q * (NVariantsL \div nv)) % NVariantsL : q \in 0..(nv - 1)}
 PrimariesL == {n \in 0..(NPrimL - 1) : ApplicableL(n)}
 UniverseIdsL(nv, seed) == UNION {{<<n, w>> : w \in VariantsForL(nv, seed, n)} : n \in PrimariesL}
 
@@ -297,9 +310,9 @@ UniqueNamesL(d) == \A f \in Range(d.present) :
     /\ \A q1 \in DOMAIN d.stm[f], q2 \in DOMAIN d.stm[f] :
           (q1 # q2 /\ d.stm[f][q1].k = "use" /\ d.stm[f][q2].k = "use") => d.imp[f][q1] # d.imp[f][q2]
 
-\* accepted: every reference, as written in its file, names the intended global of the intended file; a file's own
+\* every reference, as written in its file, names the intended global of the intended file; a file's own
 \* names mean its own globals whatever other files call theirs; what was not imported cannot be named
-RefsResolveL(d) == d.accepted =>
+RefsResolveL(d) ==
     \A f \in Range(d.present) :
         /\ \A q \in DOMAIN FileRecL(d, f).refs :
               LET r == FileRecL(d, f).refs[q]
@@ -311,28 +324,30 @@ RefsResolveL(d) == d.accepted =>
                   \E q \in DOMAIN d.stm[f] : d.stm[f][q].k = "from" /\ \E r \in DOMAIN d.stm[f][q].names :
                         d.stm[f][q].names[r].name = x /\ d.stm[f][q].names[r].as = ""
 
-\* a configuration is rejected exactly when some `from` hands on a name whose exporting file comes later in the
-\* module order than the importing file (the main file, first in that order, can never take a handed-on name)
-RejectedIffLate(d) ==
-    /\ d.accepted <=> d.hopsInOrder
-    /\ \A fl \in d.fails : <<fl[1], fl[2]>> \in d.hops
-    /\ (d.cons = Main /\ d.last = "from" /\ d.len >= 2) => ~d.accepted
-    /\ d.accepted => d.expect.status = "done" /\ Len(d.expect.prints) >= 3
-                     /\ \A q \in DOMAIN d.expect.prints : d.expect.prints[q] # "?"
-    \* the entry point is the main file's start: its line is the first one printed after the initialisers'
-    /\ d.accepted => d.expect.prints[(IF d.boots THEN Len(d.load) ELSE 0) + 1] = "main start"
-    /\ (d.accepted /\ d.boots) => \A q \in DOMAIN d.load : d.expect.prints[q] = TagOf(d.load[q]) \o " boot"
+\* the model is well-formed: every `from` finds its name (whatever the order), the run finishes, the entry point is
+\* the main file's start (its line is the first one printed after the initialisers'), the printing initialisers run in
+\* module order; the verdict is free exactly when a name is handed on through `from`
+ModelOK(d) ==
+    /\ d.fails = {}
+    /\ d.free <=> (d.len >= 3 \/ (d.len = 2 /\ d.last = "from"))
+    /\ d.expect.status = "done" /\ Len(d.expect.prints) >= 3
+    /\ \A q \in DOMAIN d.expect.prints : d.expect.prints[q] # "?"
+    /\ d.expect.prints[(IF d.boots THEN Len(d.load) ELSE 0) + 1] = "main start"
+    /\ d.boots => \A q \in DOMAIN d.load : d.expect.prints[q] = TagOf(d.load[q]) \o " boot"
 
-ConfigOKL(d) == LoadOnceL(d) /\ UniqueNamesL(d) /\ RefsResolveL(d) /\ RejectedIffLate(d)
+ConfigOKL(d) == LoadOnceL(d) /\ UniqueNamesL(d) /\ RefsResolveL(d) /\ ModelOK(d)
 
 ---------------------------------------------------------------------------
-(* Verdict on a recorded observation of configuration d: obs = [class, errkind, prints, status, reads] *)
-WhysL(d, obs) ==
-    (IF d.accepted
-     THEN (IF obs.class # "ok" THEN {"variant-" \o obs.class}
-           ELSE (IF obs.status # d.expect.status THEN {"status-differs"} ELSE {})
-                \cup (IF obs.prints # d.expect.prints THEN {"prints-differ"} ELSE {}))
-     ELSE (IF obs.class = "ok" THEN {"late-export-accepted"} ELSE IF obs.class = "panic" THEN {"variant-panic"} ELSE {}))
+(* Verdict on a recorded observation of configuration d: obs = [class, errkind, prints, status, reads].
+   grp = the compile results (classes) of all recorded configurations that differ from d only in the order of the main
+   file's import statements (d's own included). *)
+WhysL(d, obs, grp) ==
+    (IF obs.class = "ok"
+     THEN (IF obs.status # d.expect.status THEN {"status-differs"} ELSE {})
+          \cup (IF obs.prints # d.expect.prints THEN {"prints-differ"} ELSE {})
+     ELSE IF obs.class = "panic" THEN {"variant-panic"}
+     ELSE IF d.free THEN {} ELSE {"variant-err"})
+    \cup (IF "ok" \in grp /\ "err" \in grp THEN {"order-dependent-verdict"} ELSE {})
     \cup (IF \E f \in Range(d.load) : ReadCount(obs, f) > 1 THEN {"file-read-twice"} ELSE {})
     \cup (IF obs.class = "ok" /\ \E f \in Range(d.load) : ReadCount(obs, f) = 0 THEN {"file-not-read"} ELSE {})
     \cup (IF \E q \in DOMAIN obs.reads : obs.reads[q].n > 0 /\ obs.reads[q].path \notin Range(d.load) THEN {"unimported-file-read"} ELSE {})
